@@ -110,6 +110,10 @@ fn record(ctx: &Ctx, acc: &mut Acc, input: &[u8], origin: &str) {
 
 pub fn corpus() -> Vec<Vec<u8>> {
     let mut docs = crate::c15::small_documents();
+    // strings whose content ends in / consists of white space, at the end of a document and inside
+    for d in [&b"1: "[..], b"2:a\n", b"i7e3:\r\n\t", b"l1: e", b"d1: 1:\ne", b"6:\x0a\x00\x00\x20\x09\x20", b"d5:peers6:\x0a\x00\x00\x20\x09\x20e"] {
+        docs.push(d.to_vec());
+    }
     docs.push(b"d8:announce3:URL4:infod6:lengthi222e4:name4:NAME12:piece lengthi111e6:pieces20:AAAAABBBBBCCCCCDDDDDee".to_vec());
     docs.push(b"d8:intervali900e5:peersld2:ip9:127.0.0.17:peer id20:AAAAABBBBBCCCCCDDDDD4:porti6881eeee".to_vec());
     docs.push(b"d14:failure reason5:nope!e".to_vec());
@@ -155,6 +159,30 @@ pub fn run(ctx: &Ctx) -> Outcome {
                     }
                 }
                 m[pos] = orig;
+            }
+            // bytes outside the alphabet that tools like to strip or add: white space, NUL, high
+            // bytes -- substituted at every position, inserted at every position, appended in pairs
+            const W: &[u8] = b" \n\r\t\x00\x0c\xff";
+            for pos in 0..=doc.len() {
+                for &sym in W {
+                    if pos < doc.len() {
+                        let orig = m[pos];
+                        m[pos] = sym;
+                        record(ctx, &mut acc, &m, "substitution-outside-alphabet");
+                        m[pos] = orig;
+                    }
+                    let mut ins = (*doc).clone();
+                    ins.insert(pos, sym);
+                    record(ctx, &mut acc, &ins, "insertion-outside-alphabet");
+                }
+            }
+            for &a in W {
+                for &b in W {
+                    let mut app = (*doc).clone();
+                    app.push(a);
+                    app.push(b);
+                    record(ctx, &mut acc, &app, "trailing-bytes");
+                }
             }
             acc
         },
@@ -232,7 +260,7 @@ pub fn run(ctx: &Ctx) -> Outcome {
     let mut o = Outcome::new("exploration");
     o.set("evaluations", json!(total.evaluations));
     o.set("distinct_nontrivial", json!(total.ref_accepts));
-    o.set("rule", json!(format!("(1) every byte string over the alphabet {:?} of length 0..={} (all distinct); (2) every corpus document, each of its truncations and each single-position substitution by an alphabet symbol; (3) nesting ladder in subprocesses; (4) 18 huge / overflowing / zero-padded string-length headers in 6 positions (top level, inside a list, as dictionary value, in a tracker-like reply, with and without ':'), decoded in a subprocess; (5) wide documents: n = 1..=700 (thorough 3000) sibling containers (dictionaries, lists, alternating) at the top level, inside a list, as dictionary values and inside a nested list, each followed by a nested container: all well-formed. Non-trivial = inputs the reference recogniser accepts as a sequence of well-formed values (counted; for (1) they are distinct strings, (2) may repeat some).", String::from_utf8_lossy(strings::SIGMA), max_len)));
+    o.set("rule", json!(format!("(1) every byte string over the alphabet {:?} of length 0..={} (all distinct); (2) every corpus document, each of its truncations, each single-position substitution by an alphabet symbol, and -- with the bytes space, LF, CR, TAB, NUL, FF, 0xFF, which are outside the alphabet -- each single-position substitution, each single insertion and each appended pair (the corpus includes strings whose content is or ends in white space, at the end of a document and inside); (3) nesting ladder in subprocesses; (4) 18 huge / overflowing / zero-padded string-length headers in 6 positions (top level, inside a list, as dictionary value, in a tracker-like reply, with and without ':'), decoded in a subprocess; (5) wide documents: n = 1..=700 (thorough 3000) sibling containers (dictionaries, lists, alternating) at the top level, inside a list, as dictionary values and inside a nested list, each followed by a nested container: all well-formed. Non-trivial = inputs the reference recogniser accepts as a sequence of well-formed values (counted; for (1) they are distinct strings, (2) may repeat some).", String::from_utf8_lossy(strings::SIGMA), max_len)));
     o.set("sigma_strings", json!(sigma_evals));
     o.set("mutation_inputs", json!(mutation_evals));
     o.set("corpus_documents", json!(docs.len()));
